@@ -186,8 +186,35 @@ def run(ck, facts):
                     if x.get("id") != new_cfg_id[1]:
                         stale += 1
         ck.expect(uses >= 5 and stale == 0, "R1", "gen/consumers-use-overridden", "%d uses" % uses, "%d of %d later uses of `config` refer to the pre-override value" % (stale, uses), C.loc(gen))
+        # nothing is decided from the configuration before every source has been applied: the only things done to `config` before the override step are applying sources
+        # (set / get_overridden); a value read earlier (a flag computed "up front") only reflects config.toml and --config
+        early_reads = []
+        for s_ in gs[:i_over]:
+            if (s_.get("k") == "for" or C.strip(s_).get("k") == "for") and mcalls_on(C.strip(s_)["body"], "set", "config"):
+                continue
+            for x in C.walk(s_):
+                if x.get("k") == "field" and C.strip(x["e"]).get("k") == "local" and C.strip(x["e"]).get("n") == "config":
+                    early_reads.append((x.get("n"), s_.get("ln") or x.get("ln")))
+                if x.get("k") == "mcall" and x.get("m") not in ("set", "get_overridden", "clone") and C.strip(x["recv"]).get("k") == "local" and C.strip(x["recv"]).get("n") == "config":
+                    early_reads.append((x.get("m"), x.get("ln")))
+        ck.expect(not early_reads, "R1", "gen/no-read-before-all-sources", "", "gen reads %s from the configuration before the #[diplomat::config] attributes and the per-language override are applied: "
+                  "what it decides there ignores the highest-precedence source" % sorted({r_[0] for r_ in early_reads}), C.loc(gen, early_reads[0][1] if early_reads else None))
         lc = [s for s in gs[i_over + 1:] if s.get("k") == "letst" and mcalls_on(s.get("init") or {}, "lowering_config")]
         ck.expect(len(lc) == 1, "R1", "gen/lowering-config-after-override", "", "lowering_config() is not derived after the override step", C.loc(gen))
+
+    # every setter looks its key up as it was given: the `match key` / `key == ".."` tests are on the key PARAMETER, not on a rewritten copy (stripping a dotted
+    # prefix would let `cpp.lib_name` -- a key of a backend that has no such option -- overwrite the shared value for every backend)
+    for fsfx in ("config::SharedConfig::set", "config::Config::set"):
+        sf_ = tool.fn(fsfx, optional=True)
+        if sf_ is None:
+            continue
+        pids = {p_.get("id") for p_ in sf_["hir"].get("params", []) if isinstance(p_, dict)}
+        shadow = [n_ for n_ in C.walk(C.fn_body(sf_)) if n_.get("k") == "letst" and isinstance(n_.get("pat"), dict) and n_["pat"].get("k") == "bind" and n_["pat"].get("n") == "key" and n_["pat"].get("id") not in pids]
+        tests = [n_ for n_ in C.walk(C.fn_body(sf_)) if n_.get("k") == "match" and C.strip(n_["s"]).get("k") == "local" and C.strip(n_["s"]).get("n") == "key"]
+        derived = [n_ for n_ in tests if C.strip(n_["s"]).get("id") not in pids]
+        if fsfx.endswith("SharedConfig::set"):
+            ck.expect(not shadow and not derived and bool(tests), "R3", "SharedConfig::set/key-as-given", "matches on the key parameter", "SharedConfig::set rewrites the key before looking it up (%s): a key scoped to "
+                      "another prefix is taken for the shared key" % ("`let key = ..` shadows the parameter" if shadow else "the match is on a derived value"), C.loc(sf_))
 
     # ---------------- R2 setters
     setters = [("config::SharedConfig::set", ["lib_name", "unsafe_references_in_callbacks"]),
